@@ -162,6 +162,13 @@ def affine_of(term, leaf, T):
             # libm pow is assumed faithful (< 1 ulp): counted as two roundings to stay conservative
             return Affine({}, {kk * n: v ** n}, x.roundings + 2, x.addsub)
         raise Inconclusive("pow with non-constant arguments in a conversion body")
+    if k == "g":
+        x, y = affine_of(term[2], leaf, T), affine_of(term[3], leaf, T)
+        if x.A == y.A and x.B == y.B:
+            return Affine(x.A, x.B, max(x.roundings, y.roundings), max(x.addsub, y.addsub))
+        from . import ev as _ev
+        raise Inconclusive("PIECEWISE: the converted value is (%s)*v + (%s) when %s and (%s)*v + (%s) otherwise: a conversion between two units is one "
+                           "affine map for every value" % (n_show(x.A), n_show(x.B), _ev.show(term[1])[:80], n_show(y.A), n_show(y.B)))
     raise Inconclusive("conversion body uses %s%s" % (k, ":" + str(term[1]) if k == "fn" else ""))
 
 
